@@ -57,6 +57,10 @@ type KnownFinding struct {
 	Harness  string `json:"harness"`
 	What     string `json:"what"`
 	Commit   string `json:"commit,omitempty"`
+	// identification by failing call site (alternative to an input predicate in the harness)
+	MatchMsg   string `json:"match_msg,omitempty"`
+	MatchWhere string `json:"match_where,omitempty"`
+	MatchKind  string `json:"match_kind,omitempty"`
 }
 
 type harnessResult struct {
@@ -219,7 +223,14 @@ func cmdCheck(args []string) int {
 			cfg.Seed = seed
 			cfg.Known = map[string]bool{}
 			for _, k := range known {
-				if k.Status == "open" {
+				if k.Status != "open" {
+					continue
+				}
+				if k.MatchMsg != "" || k.MatchWhere != "" {
+					if k.Harness == "" || k.Harness == h.Func {
+						cfg.KnownSigs = append(cfg.KnownSigs, KnownSig{ID: k.ID, MatchMsg: k.MatchMsg, MatchWhere: k.MatchWhere, MatchKind: k.MatchKind})
+					}
+				} else {
 					cfg.Known[k.ID] = true
 				}
 			}
@@ -287,9 +298,34 @@ func cmdCheck(args []string) int {
 				inconclusive(fmt.Sprintf("counterexample did not reproduce natively (%s): %s -- %s", rp, v.Msg, lastLines(out, 6)))
 			}
 		}
-		// known findings of this harness: must still be there
+		// known findings identified by call site: tallied by the main run
 		for _, k := range known {
-			if k.Status != "open" || k.Harness != h.Func {
+			if k.Status != "open" || (k.MatchMsg == "" && k.MatchWhere == "") || (k.Harness != "" && k.Harness != h.Func) {
+				continue
+			}
+			hits := st.KnownHits[k.ID]
+			if len(hits) == 0 {
+				if k.Harness == h.Func {
+					fmt.Printf("KNOWN-FINDING-GONE: property=%s [%s] not observed within the bound by %s (%s)\n", id, k.ID, h.Func, k.What)
+				}
+				continue
+			}
+			v := hits[0]
+			rp := writeReplay(vdir, id, h, v, params, 200+len(knownSeen))
+			ok, out := nativeReplay(vdir, &spec, hdir, h, pkgPath, rp)
+			replays++
+			if ok {
+				if !knownSeen[k.ID] {
+					fmt.Printf("KNOWN-FINDING: property=%s %s [%s] e.g. %s\n", id, k.What, k.ID, prettyJSON(v.Pretty))
+				}
+				knownSeen[k.ID] = true
+			} else {
+				inconclusive(fmt.Sprintf("known finding %s did not reproduce natively: %s", k.ID, lastLines(out, 6)))
+			}
+		}
+		// known findings identified by an input predicate in the harness: must still be there
+		for _, k := range known {
+			if k.Status != "open" || k.Harness != h.Func || k.MatchMsg != "" || k.MatchWhere != "" {
 				continue
 			}
 			cfg2 := mkcfg()
@@ -498,7 +534,7 @@ func TestVerifNative(t *testing.T) {
 	ovb, _ := json.Marshal(map[string]interface{}{"Replace": repl})
 	ovf := filepath.Join(tmp, "overlay.json")
 	os.WriteFile(ovf, ovb, 0o644)
-	cmd := exec.Command("go", "test", "-vet=off", "-count=1", "-overlay", ovf, "-run", "^TestVerifNative$", "-timeout", fmt.Sprintf("%ds", timeoutS), "./"+rel)
+	cmd := exec.Command("go", "test", "-v", "-vet=off", "-count=1", "-overlay", ovf, "-run", "^TestVerifNative$", "-timeout", fmt.Sprintf("%ds", timeoutS), "./"+rel)
 	cmd.Dir = repo
 	cmd.Env = append(os.Environ(), "GOFLAGS=-mod=mod", "GOPROXY=off", "VERIF_MODEL="+replayPath, "VERIF_MODE="+mode, "MUREX_TEST_NO_HTTP=true")
 	var buf bytes.Buffer
